@@ -26,7 +26,6 @@ ALLOW = [
     (r'.*', r'^std::fs::DirEntry::metadata\(Entry\(Temp\)\)$', 'escapes', 'per-file temp cleanup is best effort (races with the files\' owners)'),
     (r'.*', r'^std::fs::remove_file\(Temp/Listed\)$', 'escapes', 'per-file temp cleanup is best effort (races with the files\' owners)'),
     (r'.*', r'^std::fs::(symlink_)?metadata\((Temp|Base|parent\(Base/Key\))\)$', 'escapes_without_mkdir', 'stat in ensure-directory falls through to create_dir_all, whose result is reported'),
-    (r'^sharded::', r'^std::fs::metadata\(Dir\?/Leaf\?\[.*\]\)$', 'escapes', 'sharded existence probe is used as a boolean'),
     (r'^stack::', r'^write/read-side get$', 'reread', 're-read after ensure\'s put falls back to the pre-opened handle'),
     (r'.*', r'^filetime::set_file_atime\(Base/Key\)$', 'eexist_touch', 'touch after link-EEXIST: absence is benign'),
 ]
@@ -60,6 +59,8 @@ def r18_1(ctx):
             esc = rec['escapes']
             if FIRST_ATTEMPT.match(rec['site']) and not rec['escapes_without_mkdir']:
                 detail = 'first-attempt error is superseded by create_dir_all + second attempt, whose error is reported'
+            elif rec['cls'] == 'probe' and rec['bool_only']:
+                detail = 'existence probe used only as a boolean (is_ok / is_err)'
             elif kind == 'escapes' or (kind == 'escapes_without_mkdir' and not rec['escapes_without_mkdir']):
                 detail = 'best-effort site: ' + why
             elif kind == 'reread':
